@@ -143,3 +143,75 @@ def ensure_facts(fresh=False, repo=None):
         lock.close()
     info['extract_s'] = round(time.time() - t0, 2)
     return cached, h, info
+
+
+FIXTURE_DIR = os.path.join(VERIF, 'fixture_macros')
+FIXTURE_CRATE = 'aff_macro_fixture'
+
+
+def ensure_fixture_facts(repo=None):
+    """MIR facts of the macro fixture crate (`fixture_macros/`: one function per arm of the macros /repo exports), built against the
+    analysed tree.  Returns the path of the facts file; raises BuildFailed when the fixture no longer compiles against the tree (an arm
+    changed its input syntax) -- the rules then report the arms as undecided."""
+    repo = os.path.realpath(repo or repo_dir())
+    if not os.path.exists(DRIVER_BIN):
+        build_driver()
+    h = hashlib.sha256()
+    h.update(tree_hash(repo).encode())
+    for root, dirs, fs in os.walk(FIXTURE_DIR):
+        dirs.sort()
+        for f in sorted(fs):
+            with open(os.path.join(root, f), 'rb') as fh:
+                h.update(f.encode() + b'\0' + fh.read())
+    key = h.hexdigest()
+    facts_dir = os.path.join(CACHE, 'facts')
+    os.makedirs(facts_dir, exist_ok=True)
+    cached = os.path.join(facts_dir, 'fixture-' + key + '.json')
+    slot = os.environ.get('AFFCHECK_SLOT', '')
+    lock = open(os.path.join(CACHE, 'fixture%s.lock' % slot), 'w')
+    fcntl.flock(lock, fcntl.LOCK_EX)
+    try:
+        if os.path.exists(cached):
+            return cached
+        d = tempfile.mkdtemp(prefix='afffix-')
+        try:
+            shutil.copytree(os.path.join(FIXTURE_DIR, 'src'), os.path.join(d, 'src'))
+            shutil.copytree(os.path.join(FIXTURE_DIR, '.cargo'), os.path.join(d, '.cargo'))
+            shutil.copy(os.path.join(FIXTURE_DIR, 'rust-toolchain.toml'), d)
+            toml = open(os.path.join(FIXTURE_DIR, 'Cargo.toml')).read().replace('path = "/repo"', 'path = "%s"' % repo)
+            open(os.path.join(d, 'Cargo.toml'), 'w').write(toml)
+            if os.path.exists(os.path.join(repo, 'Cargo.lock')):
+                shutil.copy(os.path.join(repo, 'Cargo.lock'), os.path.join(d, 'Cargo.lock'))
+            out_dir = os.path.join(d, 'out')
+            os.makedirs(out_dir)
+            env = dict(os.environ)
+            env.update({
+                'LD_LIBRARY_PATH': os.path.join(nightly_sysroot(), 'lib') + ':' + env.get('LD_LIBRARY_PATH', ''),
+                'CARGO_NET_OFFLINE': 'true',
+                'RUSTFLAGS': '-Zmir-opt-level=0 -Awarnings',
+                'RUSTC_WORKSPACE_WRAPPER': DRIVER_BIN,
+                'AFFFACTS_OUT': out_dir,
+                'AFFFACTS_CRATES': FIXTURE_CRATE,
+                'CARGO_TARGET_DIR': os.path.join(CACHE, 'tgt-fixture' + slot),
+            })
+            env.pop('RUSTC_WRAPPER', None)
+            # force cargo to re-run the wrapper on the fixture crate (its freshness cache would otherwise replay the last run)
+            fp = os.path.join(env['CARGO_TARGET_DIR'], 'debug', '.fingerprint')
+            if os.path.isdir(fp):
+                for x in os.listdir(fp):
+                    if x.startswith(FIXTURE_CRATE + '-'):
+                        shutil.rmtree(os.path.join(fp, x), ignore_errors=True)
+            r = subprocess.run(['cargo', '+nightly', 'check', '--offline', '--lib'], cwd=d, env=env, stdout=subprocess.PIPE, stderr=subprocess.STDOUT, text=True)
+            f = os.path.join(out_dir, FIXTURE_CRATE + '.facts.json')
+            if r.returncode != 0 or not os.path.exists(f):
+                raise BuildFailed(r.stdout[-3000:])
+            shutil.move(f, cached)
+        finally:
+            shutil.rmtree(d, ignore_errors=True)
+        ents = sorted((os.path.getmtime(os.path.join(facts_dir, e)), e) for e in os.listdir(facts_dir) if e.startswith('fixture-'))
+        for _, e in ents[:-8]:
+            os.remove(os.path.join(facts_dir, e))
+        return cached
+    finally:
+        fcntl.flock(lock, fcntl.LOCK_UN)
+        lock.close()
